@@ -48,6 +48,32 @@ theorem osRecvStep_hs {s hd s' p'} (hs : osRecvStep s hd = some (s', p')) : s'.h
     · cases hs; exact osTryRecv_hs s hd
     · cases hs
 
+theorem osDecSenders_hs (s : St) : (osDecSenders s).hs = s.hs := by
+  unfold osDecSenders; simp only []; (repeat' split) <;> rfl
+
+theorem teardownIfLast_hs (s : St) : (teardownIfLast s).hs = s.hs := by
+  unfold teardownIfLast; split <;> rfl
+
+theorem stgStep_hs {fl s t k h sent rest s' p'} (hs : stgStep fl s t k h sent rest = some (s', p')) : s'.hs = s.hs := by
+  unfold stgStep at hs
+  split at hs
+  · split at hs
+    · cases hs; rw [teardownIfLast_hs, osDecSenders_hs]; rfl
+    · cases hs; rfl
+  · split at hs
+    · split at hs
+      · split at hs
+        · cases hs; rfl
+        · cases hs
+      · cases hs
+    · split at hs
+      · cases hs; rw [teardownIfLast_hs, osDecSenders_hs]
+      · split at hs
+        · cases hs; rfl
+        · split at hs
+          · cases hs; rw [teardownIfLast_hs]
+          · cases hs
+
 /-- every non-initial step leaves the handle table alone -/
 theorem microDet_hs {fl cfg s p s' p'} (hp : ∀ t op, p ≠ .fresh t op) (hs : microDet fl cfg s p = some (s', p')) :
     s'.hs = s.hs := by
@@ -97,6 +123,7 @@ theorem microDet_hs {fl cfg s p s' p'} (hp : ∀ t op, p ≠ .fresh t op) (hs : 
     split at hs
     · cases hs
     · exact osRecvStep_hs hs
+  | stg t k h sent rest => exact stgStep_hs hs
   | fin o => simp [microDet] at hs
 
 
@@ -121,7 +148,7 @@ theorem setH_ne_nil {hs : List Handle} (h : hs ≠ []) (n f) : setH hs n f ≠ [
 
 /-- the first step of an operation keeps `TD`, and either finishes the operation or leaves the
 (non-empty) handle table as it was -/
-theorem start_TD (fl cfg s t op) (htd : TD s) :
+theorem start_TD (fl cfg s t op) (hg : cfg.granular = false) (htd : TD s) :
     TD (start fl cfg s t op).1 ∧
       ((∃ o, (start fl cfg s t op).2 = .fin o) ∨ ((start fl cfg s t op).1.hs = s.hs ∧ s.hs ≠ [])) := by
   cases op with
@@ -135,7 +162,9 @@ theorem start_TD (fl cfg s t op) (htd : TD s) :
       · exact ⟨htd, Or.inl ⟨_, rfl⟩⟩
       · split
         · split
-          · unfold osSendStep
+          · unfold osSendStart
+            simp only [hg, Bool.false_eq_true, false_and, if_false]
+            unfold osSendStep
             split
             · exact ⟨TD_osSendFinish _ _, Or.inl ⟨_, rfl⟩⟩
             · split <;> exact ⟨TD_osSendFinish _ _, Or.inl ⟨_, rfl⟩⟩
@@ -202,7 +231,7 @@ theorem start_TD (fl cfg s t op) (htd : TD s) :
         exfalso
         cases hsd : h.side <;> simp [hsd] at he
   | close h =>
-    simp only [start]; unfold startClose
+    simp only [start, hg, Bool.false_eq_true, false_and, if_false]; unfold startClose
     split
     · exact ⟨htd, Or.inl ⟨_, rfl⟩⟩
     · rename_i hd hf
@@ -214,7 +243,7 @@ theorem start_TD (fl cfg s t op) (htd : TD s) :
         rw [closeEffect_hs] at he
         exact absurd he (setH_ne_nil hne _ _)
   | drop h =>
-    simp only [start]; unfold startDrop
+    simp only [start, hg, Bool.false_eq_true, false_and, if_false]; unfold startDrop
     split
     · exact ⟨htd, Or.inl ⟨_, rfl⟩⟩
     · exact ⟨TD_teardownIfLast _, Or.inl ⟨_, rfl⟩⟩
@@ -275,7 +304,7 @@ theorem stepOp_TD {fl s} (htd : TD s) (op : Op) : TD (stepOp fl s op).1 := by
   unfold stepOpS
   unfold runPS
   simp only [microDet_fresh_seq]
-  have hst := start_TD fl seqCfg s 0 op htd
+  have hst := start_TD fl seqCfg s 0 op rfl htd
   rcases hst.2 with ⟨o, ho⟩ | ⟨h1, hne⟩
   · rw [ho, runPS_fin]; exact hst.1
   · have hnf : ∀ t' op', (start fl seqCfg s 0 op).2 ≠ .fresh t' op' := start_nf _ _ _ _ _
